@@ -83,8 +83,14 @@ class CHKFileURI(_BaseURI):
         mo = cls.STRING_RE.search(uri)
         if not mo:
             raise BadURIError("%r doesn't look like a %s cap" % (uri, cls))
+        try:
+            (k, n, size) = (int(mo.group(3)), int(mo.group(4)),
+                            int(mo.group(5)))
+        except ValueError:
+            # more digits than Python is willing to convert
+            raise BadURIError("%r doesn't look like a %s cap" % (uri, cls))
         return cls(base32.a2b(mo.group(1)), base32.a2b(mo.group(2)),
-                   int(mo.group(3)), int(mo.group(4)), int(mo.group(5)))
+                   k, n, size)
 
     def to_string(self):
         assert isinstance(self.needed_shares, int)
@@ -140,8 +146,14 @@ class CHKFileVerifierURI(_BaseURI):
         mo = cls.STRING_RE.search(uri)
         if not mo:
             raise BadURIError("'%s' doesn't look like a %s cap" % (uri, cls))
+        try:
+            (k, n, size) = (int(mo.group(3)), int(mo.group(4)),
+                            int(mo.group(5)))
+        except ValueError:
+            # more digits than Python is willing to convert
+            raise BadURIError("'%s' doesn't look like a %s cap" % (uri, cls))
         return cls(si_a2b(mo.group(1)), base32.a2b(mo.group(2)),
-                   int(mo.group(3)), int(mo.group(4)), int(mo.group(5)))
+                   k, n, size)
 
     def to_string(self):
         assert isinstance(self.needed_shares, int)
